@@ -271,15 +271,18 @@ namespace optree {
             const auto expected_keys = (root.kind != PyTreeKind::DefaultDict
                                             ? py::reinterpret_borrow<py::list>(root.node_data)
                                             : TupleGetItemAs<py::list>(root.node_data, 1));
-            auto other_keys = (other_root.kind != PyTreeKind::DefaultDict
-                                   ? py::reinterpret_borrow<py::list>(other_root.node_data)
-                                   : TupleGetItemAs<py::list>(other_root.node_data, 1));
+            const auto other_keys = (other_root.kind != PyTreeKind::DefaultDict
+                                         ? py::reinterpret_borrow<py::list>(other_root.node_data)
+                                         : TupleGetItemAs<py::list>(other_root.node_data, 1));
             const py::dict dict{};
             for (ssize_t i = 0; i < other_root.arity; ++i) {
                 DictSetItem(dict, ListGetItem(other_keys, i), py::int_(i));
             }
             if (!DictKeysEqual(expected_keys, dict)) [[unlikely]] {
-                TotalOrderSort(other_keys);
+                // Sort a copy for the error message: `other_keys` is the key list owned by the
+                // other treespec and must not be reordered in place.
+                py::list sorted_other_keys = py::getattr(other_keys, Py_Get_ID(copy))();
+                TotalOrderSort(sorted_other_keys);
                 const auto [missing_keys, extra_keys] = DictKeysDifference(expected_keys, dict);
                 std::ostringstream key_difference_sstream{};
                 if (ListGetSize(missing_keys) != 0) [[likely]] {
@@ -290,7 +293,8 @@ namespace optree {
                 }
                 std::ostringstream oss{};
                 oss << "dictionary key mismatch; expected key(s): " << PyRepr(expected_keys)
-                    << ", got key(s): " + PyRepr(other_keys) << key_difference_sstream.str() << ".";
+                    << ", got key(s): " + PyRepr(sorted_other_keys) << key_difference_sstream.str()
+                    << ".";
                 throw py::value_error(oss.str());
             }
 
